@@ -34,6 +34,10 @@ def gen_program(rng, idx):
             d = ('missing',)
         elif r < 0.25:
             d = ('none',)
+        elif r < 0.28:
+            d = ('bool', rng.random() < 0.5)
+        elif r < 0.30:
+            d = ('invalid', rng.choice(["'x'", '[1, 2]', "{'a': 1}", 'len']))
         elif r < 0.72:
             d = ('num', rng.choice(NUMS) if rng.random() < 0.8
                  else round(rng.uniform(-1000, 1000), 3))
@@ -108,15 +112,22 @@ def gen_program(rng, idx):
         f['prepend_values'] = vals
     if rng.random() < 0.3:
         add_repeated_names(rng, funcs, new_param)
-    if rng.random() < 0.25:
+    # at most one 'special' feature per program (each is decided against a
+    # variant of the program without it)
+    special = rng.choices([None, 'fw', 'empty', 'slag'], [65, 23, 4, 8])[0]
+    if special == 'fw':
         add_failing_wraps(rng, funcs, new_param)
+    elif special in ('empty', 'slag'):
+        if not add_odd_parameter(rng, funcs, special):
+            special = None
     prog = {'name': f'd{idx % 100000}', 'funcs': funcs, 'top': 'g0',
-            'specs': {}, 'variants': {}}
+            'specs': {}, 'variants': {}, 'special': special}
     live = [f for f in funcs.values() if not f.get('fails')]
     ctl_names = [p['name'] for f in live for p in f['params'][f['prepend']:]]
     by_name = {p['name']: p for f in live for p in f['params']}
     # variants (and the forced spec) only address names declared once
-    uniq = [n for n in ctl_names if ctl_names.count(n) == 1]
+    uniq = [n for n in ctl_names if ctl_names.count(n) == 1
+            and by_name[n]['default'] != ('tuple', [])]
     if ctl_names and rng.random() < 0.35:
         for nm in rng.sample(ctl_names, rng.randint(1, min(4, len(ctl_names)))):
             prog['specs'][nm] = rng.choice([0.3, 7, 9.5, 0.01, 220.0])
@@ -141,12 +152,20 @@ def gen_program(rng, idx):
     top_ctl = [p['name'] for p in top['params'][top['prepend']:]]
     npos = rng.randint(0, min(6, len(top_ctl))) if rng.random() < 0.8 else 0
     pos = [1000.25 + k for k in range(npos)]
+
+    def maybe_array(nm, v):
+        # array controls are sometimes set with a list of values
+        d = by_name[nm]['default'] if nm in by_name else ('num', 0)
+        if d[0] == 'tuple' and len(d[1]) >= 1 and rng.random() < 0.5:
+            return [v + 0.5 * j for j in range(rng.randint(1, len(d[1])))]
+        return v
+    pos = [maybe_array(top_ctl[k], v) for k, v in enumerate(pos)]
     rest = sorted({n for n in ctl_names if n not in top_ctl[:npos]},
                   key=ctl_names.index)
     kw = {}
     if rest and rng.random() < 0.7:
         for nm in rng.sample(rest, rng.randint(1, min(4, len(rest)))):
-            kw[nm] = 2000.25 + len(kw)
+            kw[nm] = maybe_array(nm, 2000.25 + 10 * len(kw))
     prog['call'] = {'positional': pos, 'keywords': kw}
     return prog
 
@@ -292,6 +311,68 @@ def add_failing_wraps(rng, funcs, new_param):
         host['wraps'].insert(rng.randint(0, len(host['wraps'])), fname)
 
 
+def add_odd_parameter(rng, funcs, special):
+    """'empty': one control parameter gets the empty tuple as default.
+    'slag': 1-2 scalar (non tuple) control parameters get a LIST of lag
+    values in rates (cyclic extension to one value = its first element)."""
+    cands = []
+    aliased = {f['alias_of'] for f in funcs.values() if 'alias_of' in f}
+    for f in funcs.values():
+        if 'alias_of' in f or f['name'] in aliased:
+            continue        # signature shared by several entries
+        for k, p in enumerate(f['params'][f['prepend']:]):
+            if p['default'][0] in ('missing', 'tuple', 'invalid'):
+                continue
+            cands.append((f, k, p))
+    if not cands:
+        return False
+    for f, k, p in rng.sample(cands, 1 if special == 'empty'
+                              else min(len(cands), rng.choice([1, 1, 2]))):
+        rates = list(f['rates'] or [])
+        rates += [None] * (k + 1 - len(rates))
+        if special == 'empty':
+            p['default'] = ('tuple', [])
+            if isinstance(rates[k], list):
+                rates[k] = None
+        else:
+            rates[k] = [rng.choice(LAGS) for _ in range(rng.choice([1, 2, 2, 3]))]
+            if p['annot'] in ('ir', 'tr', 'ar') and rng.random() < 0.8:
+                p['annot'] = rng.choice([None, 'kr'])
+        f['rates'] = rates
+    return True
+
+
+def without_odd_parameters(prog):
+    """variant without the special feature: empty-tuple parameters removed
+    (with their rates entries), scalar lag lists replaced by their first
+    element."""
+    import copy
+    q = copy.deepcopy(prog)
+    for f in q['funcs'].values():
+        ctl = f['params'][f['prepend']:]
+        rates = list(f['rates']) if f['rates'] is not None else None
+        keep_p, keep_r = [], []
+        for k, p in enumerate(ctl):
+            e = rates[k] if rates is not None and k < len(rates) else None
+            if p['default'] == ('tuple', []):
+                continue
+            if isinstance(e, list) and p['default'][0] != 'tuple':
+                e = e[0]
+            keep_p.append(p)
+            keep_r.append(e)
+        f['params'] = f['params'][:f['prepend']] + keep_p
+        if rates is not None:
+            f['rates'] = keep_r + rates[len(ctl):]
+    q['special'] = None
+    top = q['funcs'][q['top']]
+    ntop = len(top['params']) - top['prepend']
+    live = {p['name'] for f in q['funcs'].values() for p in f['params']}
+    q['call'] = {'positional': q['call']['positional'][:ntop],
+                 'keywords': {k: v for k, v in q['call']['keywords'].items()
+                              if k in live}}
+    return q
+
+
 def without_failed_wraps(prog):
     """the same program with every rejected helper removed (its fallback
     is wrapped directly in its place)."""
@@ -322,8 +403,10 @@ def param_source(p):
     sp = p['annot'] or 'annot_src' in p
     if d[0] == 'none':
         s += ' = None' if sp else '=None'
-    elif d[0] == 'num':
+    elif d[0] in ('num', 'bool'):
         s += (' = ' if sp else '=') + repr(d[1])
+    elif d[0] == 'invalid':
+        s += (' = ' if sp else '=') + d[1]
     elif d[0] == 'tuple':
         body = ', '.join(repr(x) for x in d[1]) + (',' if len(d[1]) == 1 else '')
         s += (' = ' if sp else '=') + f'({body})'
